@@ -181,8 +181,24 @@ func (sc *scn) scenario() *qx.Scenario {
 			mu.Unlock()
 		})
 		added := false
+		stale := ""
 		x.SetEnv(func() []qx.Action {
 			var acts []qx.Action
+			// Decisions are taken when every goroutine is blocked: a generation whose heartbeat was answered with an
+			// error (or whose watched topic was reported gone) in an earlier step has had all the time it needs to
+			// cancel the contexts of its functions. Virtual time alone cannot show this when the next event falls
+			// on the same instant.
+			if !sc.fine {
+				mu.Lock()
+				for _, f := range fns {
+					if f.Name == "waiter" && f.StartSeq > 0 && f.CancelSeq == 0 && stale == "" {
+						if w := endedBecause(c, f.Gen); w != "" {
+							stale = fmt.Sprintf("generation %d ended (%s) but the context of its function was still not cancelled when the client had come to rest", f.Gen, w)
+						}
+					}
+				}
+				mu.Unlock()
+			}
 			ps := c.Pending()
 			for _, e := range ps {
 				e := e
@@ -277,6 +293,9 @@ func (sc *scn) scenario() *qx.Scenario {
 				}
 			}
 		}
+		if stale != "" {
+			viol("late-cancellation", stale)
+		}
 		// (b) prompt cancellation: cause time == cancel time (virtual clock, event level only)
 		c.Lock()
 		g := c.Groups["g"]
@@ -287,9 +306,11 @@ func (sc *scn) scenario() *qx.Scenario {
 		causes := map[int32][]cause{}
 		// the connection of each generation: the one its SyncGroup request travelled on
 		genConn := map[int32]int{}
+		genSyncSeq := map[int32]int{}
 		for _, e := range c.Journal {
 			if r, ok := e.Msg.(*syncgroup.Request); ok {
 				genConn[r.GenerationID] = e.Conn
+				genSyncSeq[r.GenerationID] = e.Seq
 			}
 		}
 		for gid, conn := range genConn {
@@ -300,6 +321,10 @@ func (sc *scn) scenario() *qx.Scenario {
 				switch {
 				case e.Key == protocol.Heartbeat && strings.HasPrefix(e.Answer, "err:"):
 					causes[gid] = append(causes[gid], cause{e.AnsweredAt, "heartbeat " + e.Answer})
+				case e.Key == protocol.Metadata && e.Answer == "err:3" && e.Seq > genSyncSeq[gid]:
+					// (a metadata request after the generation was formed is the watcher's, not the join's)
+					// the watched topic is gone: its partition count changed (to none)
+					causes[gid] = append(causes[gid], cause{e.AnsweredAt, "partition watcher: unknown topic"})
 				case e.Answer == "drop" || strings.HasPrefix(e.Answer, "cut:") || e.Answer == "conn-dropped":
 					if e.Key == protocol.Heartbeat || e.Key == protocol.Metadata {
 						causes[gid] = append(causes[gid], cause{e.AnsweredAt, fmt.Sprintf("api %d %s", e.Key, e.Answer)})
@@ -329,7 +354,10 @@ func (sc *scn) scenario() *qx.Scenario {
 						first = cz
 					}
 				}
-				if first != nil && (f.CancelSeq == 0 || f.CancelAt > first.at) && st == qx.StDone {
+				// a context never cancelled although the end of the generation lies more than 10 s back is a
+				// violation even when the scenario did not finish (it cannot: Next waits for that generation)
+				never := first != nil && f.CancelSeq == 0 && x.Now()-first.at > 10*time.Second
+				if first != nil && (((f.CancelSeq == 0 || f.CancelAt > first.at) && st == qx.StDone) || never) {
 					viol("late-cancellation", fmt.Sprintf("generation %d ended at %v (%s) but its function's context was cancelled at %v (0 = never)", f.Gen, first.at, first.what, f.CancelAt))
 				}
 			}
@@ -430,6 +458,34 @@ func short(s string) string {
 	return s
 }
 
+// endedBecause names an answer, already delivered, that ends generation gen: a heartbeat answered with an error
+// code, or the partition watcher's poll answered with UnknownTopicOrPartition.
+func endedBecause(c *fk.Cluster, gen int32) string {
+	c.Lock()
+	defer c.Unlock()
+	conn, syncSeq := -1, -1
+	for _, e := range c.Journal {
+		if r, ok := e.Msg.(*syncgroup.Request); ok && r.GenerationID == gen {
+			conn, syncSeq = e.Conn, e.Seq
+		}
+	}
+	if conn < 0 {
+		return ""
+	}
+	for _, e := range c.Journal {
+		if e.Conn != conn || e.Seq < syncSeq {
+			continue
+		}
+		if e.Key == protocol.Heartbeat && strings.HasPrefix(e.Answer, "err:") && hbGen(e) == gen {
+			return "heartbeat " + e.Answer
+		}
+		if e.Key == protocol.Metadata && e.Answer == "err:3" {
+			return "partition watcher: unknown topic"
+		}
+	}
+	return ""
+}
+
 func hbGen(e *fk.Entry) int32 {
 	if r, ok := e.Msg.(interface{ GetGen() int32 }); ok {
 		return r.GetGen()
@@ -448,7 +504,7 @@ func suite(tier string) []qx.SuiteItem {
 		{name: "heartbeat-other-error-codes", gens: 2, faults: map[protocol.ApiKey][]string{protocol.Heartbeat: {"err:16", "err:15", "err:14", "err:7", "err:30"}}, bound: b},
 		{name: "early-function-exit", gens: 2, earlyFn: true, faults: map[protocol.ApiKey][]string{protocol.Heartbeat: {"err:27"}}, bound: b},
 		{name: "join-sync-faults", gens: 1, faults: map[protocol.ApiKey][]string{protocol.JoinGroup: {"err:15", "err:25", "drop"}, protocol.SyncGroup: {"err:27", "err:22", "drop"}, protocol.OffsetFetch: {"err:15", "drop"}, protocol.FindCoordinator: {"err:15"}, protocol.LeaveGroup: {"drop", "err:25"}}, bound: b},
-		{name: "partition-watcher", gens: 2, watch: true, faults: map[protocol.ApiKey][]string{protocol.Metadata: {"err:5", "drop"}, protocol.Heartbeat: {"err:27"}}, bound: b},
+		{name: "partition-watcher", gens: 2, watch: true, faults: map[protocol.ApiKey][]string{protocol.Metadata: {"err:5", "err:3", "drop"}, protocol.Heartbeat: {"err:27"}}, bound: b},
 		{name: "slow-function-heartbeat-faults", gens: 2, slowFn: true, faults: map[protocol.ApiKey][]string{protocol.Heartbeat: {"err:27", "drop"}}, bound: b},
 		{name: "slow-function-early-exit", gens: 2, slowFn: true, earlyFn: true, faults: map[protocol.ApiKey][]string{protocol.Heartbeat: {"err:27"}}, bound: b},
 		{name: "fine-start-vs-close", gens: 1, earlyFn: true, fine: true, faults: map[protocol.ApiKey][]string{protocol.Heartbeat: {"err:27"}}, bound: b - 1},
